@@ -160,6 +160,73 @@ func driveC13(t *testing.T, out *vEmitter) {
 			vC13Observe(out, e, sc.name, plan, res, ops, keysBefore, b)
 		}
 	}
+	vC13ReadyVariants(t, out)
+}
+
+// The readiness endpoint under the logging options that reorder the front of the middleware chain (silence-ping-logging
+// puts the health check and the readiness check in front of the request logger) and under renamed ping / ready paths:
+// with the store down it never answers 200, whichever handler comes first.
+func vC13ReadyVariants(t *testing.T, out *vEmitter) {
+	type variant struct {
+		name        string
+		silence     bool
+		ping, ready string
+		gcpHC       bool
+	}
+	for _, v := range []variant{
+		{"silence-ping", true, "", "", false},
+		{"silence-ping-renamed", true, "/healthz", "/readyz", false},
+		{"renamed", false, "/healthz", "/readyz", false},
+		{"silence-ping-gcp", true, "", "", true},
+		{"ready-under-ping", true, "/ping", "/ping/ready", false},
+	} {
+		v := v
+		e := vNewEnv(t, vEnvCfg{oidc: true, redis: true, mod: func(o *options.Options) {
+			o.Logging.SilencePing = v.silence
+			if v.ping != "" {
+				o.PingPath = v.ping
+			}
+			if v.ready != "" {
+				o.ReadyPath = v.ready
+			}
+			o.GCPHealthChecks = v.gcpHC
+		}})
+		readyPath := e.opts.ReadyPath
+		for _, down := range []bool{false, true} {
+			e.redis.ResetOps()
+			var plan []vFaultSpec
+			if down {
+				e.redis.mu.Lock()
+				for k := 0; k < 8; k++ {
+					e.redis.faults[k] = vErrBefore
+					plan = append(plan, vFaultSpec{k, vErrBefore, 0})
+				}
+				e.redis.mu.Unlock()
+			}
+			b := e.newBrowser("https://app.example.com")
+			b.deadline = 400 * time.Millisecond
+			res := b.get(readyPath)
+			ops := e.redis.Ops()
+			e.redis.ResetOps()
+			outcome := "notready"
+			if res.Status == 200 {
+				outcome = "ready"
+			}
+			out.Case("fault/ready/"+v.name, down, vL(vY(outcome), vOpsSX(ops), vBool(false), vBool(false)), vL("store_flow", vY("ready"), vPlanSX(plan)))
+			out.Stat("ready_variant_runs", 1)
+			if res.Panic != nil {
+				out.Violation("store-fault/panic", fmt.Sprintf("the readiness endpoint panicked: %v", res.Panic), map[string]interface{}{"variant": v.name})
+			}
+			if down && res.Status == 200 {
+				out.Violation("store-fault/ready-while-store-unreachable", "the readiness endpoint reports ready while every store operation fails",
+					map[string]interface{}{"variant": v.name, "silence_ping_logging": v.silence, "ping_path": e.opts.PingPath, "ready_path": readyPath,
+						"store_operations_seen": len(ops), "body": res.Body})
+			}
+			if !down && res.Status != 200 {
+				out.Stat("ready_variant_not_ready_without_fault", 1)
+			}
+		}
+	}
 }
 
 func vC13Observe(out *vEmitter, e *vEnv, scenario string, plan []vFaultSpec, res *vResult, ops []vRedisOp, keysBefore []string, b *vMainBrowser) {
